@@ -95,6 +95,7 @@ func vpAudience(vp string) string {
 type oracle struct {
 	r        *runner
 	uses     map[string]int // one-time value -> successful redemptions
+	burnt    []string       // one-time values redeemed in the current step
 	delivered map[string]int
 }
 
@@ -111,6 +112,7 @@ func (o *oracle) used(i int, kind, name string, bornKey string) {
 	if o.uses[k] > 1 {
 		r.violate(i, "reuse", kind, fmt.Sprintf("%s accepted %d times", k, o.uses[k]))
 	}
+	o.burnt = append(o.burnt, k)
 	if b, ok := r.born[bornKey]; ok && r.now()-b >= ttl[kind] {
 		r.violate(i, "accepted-after-expiry", kind, fmt.Sprintf("%s accepted at age %s (life time %s)", k, r.now()-b, ttl[kind]))
 	}
@@ -444,8 +446,21 @@ func (o *oracle) afterStep(i int, s step, out string, pg *page, logFrom int, bef
 			}
 		}
 	}
+	if s.A == "Forged" && out != "error-page" {
+		r.violate(i, "forged-request-accepted", "request-object/signer", "a request object signed by another tenant's key was accepted for client "+s.Cid+": "+out)
+	}
 	// ---- U2: no damage
 	after := o.snapshot()
+	// ---- U3: what was redeemed is gone
+	for _, k := range o.burnt {
+		name := k
+		if strings.HasPrefix(k, "nonce/") || strings.HasPrefix(k, "tok/") || strings.HasPrefix(k, "code/") || strings.HasPrefix(k, "r1/") || strings.HasPrefix(k, "ro/") || (strings.HasPrefix(k, "sid/") && out == "token") {
+			if _, alive := after[name]; alive {
+				r.violate(i, "not-burnt", strings.Split(k, "/")[0], k+" is still redeemable after it was accepted")
+			}
+		}
+	}
+	o.burnt = nil
 	involved := map[string]bool{s.F: true, s.R: true, s.C: true, s.S: true, s.P: true}
 	for name, v := range before {
 		if strings.HasPrefix(name, "sess/") || s.A == "Tick" {
